@@ -80,6 +80,10 @@ type Obligation struct {
 	Pos    token.Position
 	Text   string
 	Via    string
+	// Slice restricts the log entries the obligation is proved from to those generated in the listed blocks (nil: all entries);
+	// SliceKey identifies the slice. Dropping assumptions is always sound; it keeps the per-edge queries of big functions small.
+	Slice    map[int]bool
+	SliceKey string
 	// results
 	Status  string // "unsat" (discharged), "sat", "unknown", "timeout", "error"
 	Solver  string
